@@ -28,9 +28,13 @@ def _level_for(pid):
 
 def finish(pid, tier, seed, results, reg, assumed, wall, known, match_known):
     units, lemmas, canaries, boundeds, crashes = [], [], [], [], []
+    timeouts = []
     for kind, name, r in results:
         if r.get('crash'):
             crashes.append((kind, name, r['error']))
+            continue
+        if r.get('timeout'):
+            timeouts.append((kind, name))
             continue
         {'unit': units, 'lemma': lemmas, 'canary': canaries, 'bounded': boundeds}[kind].append((name, r))
     obligations = discharged = 0
@@ -77,6 +81,8 @@ def finish(pid, tier, seed, results, reg, assumed, wall, known, match_known):
         if len(samples) < 6 and r['clauses']:
             cl = sorted(r['clauses'])[0]
             samples.append({'obligation': cl, 'paths': r['clauses'][cl]['paths'], 'unit_src_hash': r.get('src_hash')})
+    for kind, name in timeouts:
+        undecided.append({'obligation': '%s:%s' % (kind, name), 'reason': 'job exceeded its wall-clock limit and was stopped (undecided, not a violation)'})
     canaries_run = len(canaries)
     canaries_killed = sum(1 for _, r in canaries if r.get('killed'))
     weak = [r for _, r in canaries if not r.get('killed')]
